@@ -1,10 +1,12 @@
 CONSTANTS
   Dev = {}
+  MaxRuns = 1
+  EntQKinds = {"positive", "ds"}
   Budget = 2
   Shapes = {"secure3", "insecure3", "secure4", "insecure4", "entapex_s", "entapex_i", "entname_s", "entname_i"}
   Denials = {"nsec", "nsec3", "optout"}
-  QKinds = {"positive", "wildcard", "nodata", "nxdomain", "cname1", "cname2", "ds", "dname", "dnamex"}
-  AdvActs = {"DropRrsig", "DropRrset", "ReplaceRdata", "WrongSigner", "Expire", "NotYetValid", "ReplayAncestor", "ForgeSigned", "AddBadSig", "CorruptKey", "CorruptDs", "StripProof", "ForgeNsecRange", "SwapProof", "BadNsec3Label", "BadNsec3LabelSigned", "ZeroCounts", "ZeroTtl", "Inject", "CnameLoop"}
+  QKinds = {"positive", "wildcard", "nodata", "nxdomain", "cname1", "cname2", "ds", "dname", "dnamex", "nxdeep"}
+  AdvActs = {"DropRrsig", "DropRrset", "ReplaceRdata", "WrongSigner", "Expire", "ReplayAncestor", "AddCollidingKey", "CorruptSigOctets", "HideCe", "ForgeSigned", "AddBadSig", "CorruptKey", "CorruptDs", "StripProof", "BadNsec3Label", "BadNsec3LabelSigned", "ZeroCounts", "ZeroTtl", "Inject", "CnameLoop"}
 SPECIFICATION Spec
 VIEW View
 INVARIANT Soundness
@@ -13,5 +15,6 @@ INVARIANT InsecureNotBogus
 INVARIANT WithinAllowed
 INVARIANT NoPanic
 INVARIANT Terminates
+INVARIANT CacheTransparent
 INVARIANT Emit
 CHECK_DEADLOCK TRUE
